@@ -3,7 +3,13 @@ use crate::core::record::Record;
 use crate::stats::Statistics;
 use crate::utils::hash::murmur3_32;
 use bytes::Bytes;
+#[cfg(not(feoxdb_verif))]
 use parking_lot::{Mutex, RwLock, RwLockWriteGuard};
+#[cfg(feoxdb_verif)]
+use {
+    crate::verif::sync::Mutex,
+    parking_lot::{RwLock, RwLockWriteGuard},
+};
 use std::sync::atomic::{AtomicBool, AtomicUsize, Ordering};
 use std::sync::{Arc, Weak};
 
@@ -138,6 +144,8 @@ impl ClockCache {
         if current_usage + size > high_watermark {
             self.evict_entries();
         }
+        #[cfg(feoxdb_verif)]
+        crate::verif::yield_point("cache.insert_after_evict");
 
         let hash = murmur3_32(&key, 0);
         let bucket_idx = (hash as usize) % CACHE_BUCKETS;
@@ -261,6 +269,8 @@ impl ClockCache {
                 let bucket_index = hand % CACHE_BUCKETS;
                 hand = hand.wrapping_add(1);
                 let mut bucket = self.buckets[bucket_index].write();
+                #[cfg(feoxdb_verif)]
+                let verif_occupied = !bucket.is_empty();
                 let mut i = 0;
 
                 while i < bucket.len() {
@@ -285,6 +295,11 @@ impl ClockCache {
                     if current_usage <= target_usage {
                         break;
                     }
+                }
+                #[cfg(feoxdb_verif)]
+                if verif_occupied {
+                    drop(bucket);
+                    crate::verif::yield_point("cache.evict_between_buckets");
                 }
 
                 if current_usage <= target_usage {
@@ -312,6 +327,10 @@ impl ClockCache {
                 .fetch_sub(removed_size, Ordering::Relaxed);
             #[cfg(test)]
             crate::test_hooks::pause_at(crate::test_hooks::AFTER_CACHE_BUCKET_CLEAR);
+            #[cfg(feoxdb_verif)]
+            if removed_size > 0 {
+                crate::verif::yield_point("after_cache_bucket_clear");
+            }
         }
 
         self.clock_hand.store(0, Ordering::Relaxed);
@@ -344,6 +363,43 @@ impl ClockCache {
                 self.evict_entries();
             }
         }
+    }
+}
+
+#[cfg(feoxdb_verif)]
+impl ClockCache {
+    /// (key, accounted size, value length, reference bit, bound to a record generation)
+    pub fn verif_entries(&self) -> Vec<(Vec<u8>, usize, usize, bool, bool)> {
+        let mut entries = Vec::new();
+        for bucket in &self.buckets {
+            for entry in bucket.read().iter() {
+                entries.push((
+                    entry.key.clone(),
+                    entry.size,
+                    entry.value.len(),
+                    entry.reference_bit.load(Ordering::Relaxed),
+                    entry.record.is_some(),
+                ));
+            }
+        }
+        entries
+    }
+
+    /// Whether an entry bound to exactly this generation exists; does not touch the reference bit.
+    pub(crate) fn get_for_record_quiet(&self, key: &[u8], record: &Arc<Record>) -> bool {
+        let hash = murmur3_32(key, 0);
+        let bucket_idx = (hash as usize) % CACHE_BUCKETS;
+        self.buckets[bucket_idx].read().iter().any(|entry| {
+            entry.key == key
+                && entry
+                    .record
+                    .as_ref()
+                    .is_some_and(|cached| std::ptr::eq(cached.as_ptr(), Arc::as_ptr(record)))
+        })
+    }
+
+    pub fn verif_entry_overhead() -> usize {
+        std::mem::size_of::<CacheEntry>()
     }
 }
 
